@@ -21,6 +21,7 @@ except Exception:  # noqa: BLE001
     pass
 
 FILTERS = ("ramp", "shepp-logan", "cosine", "hamming", "hann", None)
+SINO_DTYPES = ("float32", "float64", "int64", "int32", "int16", "uint8")
 WINDOWED = ("shepp-logan", "hamming", "hann")
 
 
@@ -208,7 +209,16 @@ def _iradon_inputs(inp):
     sino = np.stack([make_sinogram(A, N, kinds[b % len(kinds)], seed=inp.get("seed", 0) + b) for b in range(B)])
     th = _theta(inp)
     tth = None if th is None else torch.tensor(th, dtype=torch.float32)
-    x = torch.tensor(sino) if not inp.get("two_d", False) else torch.tensor(sino[0])
+    dt = inp.get("sino_dtype") or "float32"
+    if dt not in SINO_DTYPES:
+        raise ValueError(f"unknown sinogram dtype {dt}")
+    if dt != "float32":
+        # value kind of the argument: detector COUNTS stored in an integer tensor (or a float64 tensor); the reference is
+        # scikit-image on the same numbers (it converts every input to float)
+        sino = np.floor(sino * 40.0) if dt != "float64" else sino.astype(np.float64) * 40.0
+    x = torch.tensor(sino).to(getattr(torch, dt))
+    if inp.get("two_d", False):
+        x = x[0]
     kw = dict(filter_name=inp.get("filter_name", "ramp"), circle=bool(inp.get("circle", True)))
     if inp.get("output_size") is not None:
         kw["output_size"] = int(inp["output_size"])
@@ -220,6 +230,8 @@ def rt_iradon(inp):
     from skimage.transform import iradon
     from quantem.tomography.radon.radon import iradon_torch
 
+    import torch
+
     N, B, A, sino, th, tth, x, kw = _iradon_inputs(inp)
     if th is not None and len(th) != A:
         try:
@@ -230,10 +242,26 @@ def rt_iradon(inp):
             return _report([f"raised {type(e).__name__}"], "ValueError (theta does not match the number of projections)")
         return _report(["no exception"], "ValueError (theta does not match the number of projections)")
     before = x.clone()
-    out = iradon_torch(x, theta=tth, **kw).numpy()
+    try:
+        res = iradon_torch(x, theta=tth, **kw)
+    except Exception as e:  # noqa: BLE001  (an exception of the REAL function is a reported failure, never a checker fault)
+        return _report([f"N={N} A={A} filter={kw['filter_name']} dtype={x.dtype}: raised {type(e).__name__}: {str(e)[:160]}"],
+                       "a reconstruction (scikit-image accepts every filter name for every numeric sinogram)")
     problems = []
+    if not res.dtype.is_floating_point:
+        problems.append(f"reconstruction has dtype {res.dtype} (a filtered back-projection is real-valued)")
+    out = res.to(torch.float64).numpy()
     if not bool((x == before).all()):
         problems.append("input tensor was modified in place")
+    if not x.dtype.is_floating_point:
+        # the reconstruction of an integer (count) sinogram equals that of its float copy
+        try:
+            fl = iradon_torch(x.to(torch.float32), theta=tth, **kw).to(torch.float64).numpy()
+            if fl.shape != out.shape or not float(np.abs(fl - out).max()) <= 1e-6 * max(1.0, float(np.abs(fl).max())):
+                problems.append(f"N={N} filter={kw['filter_name']}: reconstruction of the {x.dtype} sinogram differs from that of its float32 copy by "
+                                f"{float(np.abs(fl - out).max()) if fl.shape == out.shape else 'shape'}")
+        except Exception as e:  # noqa: BLE001
+            problems.append(f"float copy raised {type(e).__name__}")
     refs = []
     with warnings.catch_warnings():
         warnings.simplefilter("ignore")
@@ -358,6 +386,25 @@ def rt_spec_conformance(inp):
     return _report(problems, "contract's reference geometry == matrix passed to skimage.transform.warp")
 
 
+def _never_crash(rt):
+    """An oracle must not crash on a patched tree: an unexpected exception from the REAL function is a failure it reports."""
+    import functools
+
+    @functools.wraps(rt)
+    def f(inp):
+        try:
+            return rt(inp)
+        except Exception as e:  # noqa: BLE001
+            import traceback
+
+            return dict(violated=True, observed=f"raised {type(e).__name__}: {str(e)[:200]} ({traceback.format_exc().strip().splitlines()[-3].strip()[:120]})",
+                        expected="no exception (the unchanged tree evaluates this case)")
+    return f
+
+
+rt_filter, rt_radon, rt_zero_degree, rt_iradon, rt_batched, rt_linear = (_never_crash(f_) for f_ in (rt_filter, rt_radon, rt_zero_degree, rt_iradon, rt_batched, rt_linear))
+
+
 # ======================================================================================================================
 # deductive part: contracts on the REAL functions (VCs generated from their source), lemmas, bounded stand-ins
 # ======================================================================================================================
@@ -397,6 +444,10 @@ def _rng(i, n):
 # ----------------------------------------------------------------------------------------------------------------------
 # get_fourier_filter_torch  ==  skimage _get_fourier_filter   (both REAL sources are interpreted)
 # ----------------------------------------------------------------------------------------------------------------------
+
+def _is_floating(dt):
+    return bool(isinstance(dt, _torch.dtype) and dt.is_floating_point)
+
 
 def flt_setup(ctx):
     size = ctx.fresh("size", "int")
@@ -477,7 +528,8 @@ def fam_filter_ok():
 
 C_FILTER = Contract(
     f"{RAD}:get_fourier_filter_torch", setup=flt_setup,
-    requires=lambda s: [("size>=1", lift(s.size) >= 1)],
+    requires=lambda s: [("size>=1", lift(s.size) >= 1),
+                        ("dtype-is-a-floating-dtype(the-kernel-holds-1/4-and--1/(pi*n)^2;an-integer-kernel-truncates-to-0)", _is_floating(s.__dict__.get("dtype", _torch.float32)))],
     ensures=flt_ensures, result=flt_result,
     raises={ValueError: flt_raises},
     concretize=flt_conc, rt=rt_filter, rt_family=fam_filter_ok,
@@ -515,10 +567,21 @@ def ir_setup(ctx):
     s.filter_name = "ramp" if ctx.branch(ctx.fresh("filter_is_ramp", "bool").t) else "bogus-name"
     s.circle = bool(ctx.branch(ctx.fresh("circle", "bool").t))
     s.device = None
+    # value kind of the sinogram argument: float32, or detector counts in an integer tensor (scikit-image converts every input to float;
+    # the port must build its filter in a floating dtype whatever the sinogram's dtype)
+    s.sino_dtype = "float32"
+    for dt in ("int64", "float64"):
+        if ctx.branch(ctx.fresh(f"sinogram_dtype_is_{dt}", "bool").t):
+            s.sino_dtype = dt
+            break
+    s.sinograms.dt = getattr(_torch, s.sino_dtype)
     ctx.ghost["c07_setup"] = s
     # explored configurations (each with both parities of N unless stated):
     #   explicit theta x circle in {True, False} x ramp | default theta x circle=True x ramp | odd N, explicit theta, circle=True, unknown filter name
+    #   | odd N, explicit theta, circle=True, ramp, sinogram dtype in {int64, float64}
     ok = (s.filter_name == "ramp" and (not s.theta_none or s.circle)) or (s.filter_name != "ramp" and s.odd and not s.theta_none and s.circle)
+    if s.sino_dtype != "float32":
+        ok = s.filter_name == "ramp" and s.odd and not s.theta_none and s.circle
     if not ok:
         from pyvc.interp import PathEnd
 
@@ -753,8 +816,9 @@ def ir_conc(ev):
     A = A if (A is not None and 2 <= A <= 8) else 4
     B = B if (B is not None and 1 <= B <= 3) else 2
     th = None if ev("theta_is_None", False) else [round(7.0 + 173.0 * i / A, 3) for i in range(A)]
+    dt = "int64" if ev("sinogram_dtype_is_int64", False) else ("float64" if ev("sinogram_dtype_is_float64", False) else "float32")
     return dict(N=N, A=A, B=B, theta=th, filter_name="ramp" if ev("filter_is_ramp", True) else "bogus-name", circle=bool(ev("circle", True)),
-                kinds=["random", "delta", "smooth"])
+                kinds=["random", "delta", "smooth"], sino_dtype=dt)
 
 
 def fam_iradon_ok():
@@ -763,6 +827,8 @@ def fam_iradon_ok():
         for A, th in ((1, [33.0]), (4, [0.0, 45.0, 90.0, 135.0]), (5, [3.0, 41.5, 77.7, 120.0, 179.0])):
             for fn in ("ramp", None, "hann"):
                 yield dict(N=N, A=A, B=2, theta=th, filter_name=fn, circle=True, kinds=["random", "delta"])
+    for dt in ("int64", "uint8", "float64"):
+        yield dict(N=9, A=4, B=2, theta=[0.0, 45.0, 90.0, 135.0], filter_name="ramp", circle=True, kinds=["random", "delta"], sino_dtype=dt)
 
 
 def _ir_recon_kind(ctx, old):
@@ -1158,6 +1224,14 @@ def fam_iradon(tier="quick", seed=0):
         yield dict(N=N, A=1, B=1, theta=None, filter_name="ramp", circle=True, kind="random", seed=seed)       # one projection: default theta = [0] in both
     for N in range(3, 34, 2):
         yield dict(N=N, A=5, B=1, theta=OBLIQUE[N % 3], filter_name="ramp", circle=False, kind="random", seed=seed)
+    # value kinds of the sinogram: integer detector counts (int64 / int32 / int16 / uint8) and float64, every filter
+    for z, N in enumerate((3, 5, 9, 11, 15, 21, 33)):
+        for q, nm in enumerate(FILTERS):
+            dt = SINO_DTYPES[1 + (z + q) % 5]
+            yield dict(N=N, A=5, B=1 + (z + q) % 2, theta=OBLIQUE[(z + q) % 3], filter_name=nm, circle=True, kinds=["random", "smooth"], sino_dtype=dt, seed=seed)
+    for dt in SINO_DTYPES[1:]:
+        yield dict(N=7, A=4, B=2, theta=[0.0, 45.0, 90.0, 135.0], filter_name="ramp", circle=True, kinds=["random", "delta"], sino_dtype=dt, seed=seed)
+        yield dict(N=13, A=3, B=1, theta=[20.0, 80.0, 140.0], filter_name="hamming", circle=True, kind="random", sino_dtype=dt, two_d=True, seed=seed)
     for N in (5, 9, 12):
         yield dict(N=N, A=3, B=1, theta=[10.0, 20.0], filter_name="ramp", circle=True, kind="random")              # theta mismatch -> ValueError
         yield dict(N=N, A=4, B=1, theta=_sub(rng, 4), filter_name="hann", circle=True, kind="smooth", two_d=True)
@@ -1202,7 +1276,8 @@ def klass_iradon(inp, res):
         return "cosine filter"
     if not circle and _detector_out_of_range(inp):
         return "circle=False, detector coordinate outside [0,N-1]"
-    return f"odd N, filter {nm}, circle={circle}"
+    dt = inp.get("sino_dtype") or "float32"
+    return f"odd N, filter {nm}, circle={circle}" + ("" if dt == "float32" else f", {dt} sinogram")
 
 
 def fam_batched(tier="quick", seed=0):
@@ -1257,7 +1332,7 @@ BOUNDED = [
     Bounded.from_rt("radon_torch == skimage.radon (circle)", rt_radon, fam_radon,
                     "N=3..33 (odd and even), batch 1..3, the full 7.5-degree grid 0..180 for every size + oblique subsets + random subsets + default theta; random/smooth/delta images non-zero on the rim; pre-masked and unmasked", klass=klass_radon),
     Bounded.from_rt("iradon_torch == skimage.iradon", rt_iradon, fam_iradon,
-                    "N=3..33 and 45,47,63,65; six filters; 5 oblique angles; batch 1..3; default theta; circle=False for odd N; theta mismatch", klass=klass_iradon),
+                    "N=3..33 and 45,47,63,65; six filters; 5 oblique angles; batch 1..3; default theta; circle=False for odd N; theta mismatch; sinogram dtypes float32/float64/int64/int32/int16/uint8 (integer counts == float copy)", klass=klass_iradon),
     Bounded.from_rt("get_fourier_filter_torch == skimage._get_fourier_filter", rt_filter, fam_filter,
                     "even sizes 2..20, 32..512, six filters; odd sizes and unknown names must raise", klass=klass_filter),
     Bounded.from_rt("0-degree projection == masked column sums", rt_zero_degree, fam_zero, "N=3..33, batch 2", klass=klass_radon),
